@@ -171,7 +171,9 @@ def generate(prop, rng):
             cand = sorted(l for l in src if l.startswith("c") and l not in dest)
             if cand:
                 src_missing = rng.sample(cand, rng.randint(1, min(2, len(cand))))
-        cfg["via_push"] = bool(cfg["shallow"] and not cfg["hardlink"] and not indexed and rng.random() < 0.3)
+        # (with an index carried over from an earlier push the request goes through push() more often: the
+        # persisted index is then the one push() opens itself)
+        cfg["via_push"] = bool(cfg["shallow"] and not cfg["hardlink"] and rng.random() < (0.5 if indexed else 0.3))
         if cfg["via_push"]:
             cfg["cache_odb"] = "dest"
         sc.update(
@@ -395,6 +397,26 @@ class Run:
                 # an earlier, fully successful push of this tree (transfer.py:127-138)
                 d = m.oid[lab]
                 self.index.update([d], list(m.children[d]))
+        if cfg.get("via_push") and cfg["use_index"] and sc.get("indexed"):
+            # the earlier, fully successful push that left the persisted index behind: everything it covers is
+            # put into the destination, pushed (which indexes it), and what has "since vanished" is taken out again
+            closure = set()
+            for lab in sc["indexed"]:
+                d = m.oid[lab]
+                closure.add(d)
+                closure.update(m.children[d])
+            for o in sorted(closure):
+                self.w.raw_add(self.dname, dk, o, m.bytes[o])
+                self.w.raw_add("src", cfg["src_kind"], o, m.bytes[o])
+            keep_src = {m.oid[lab] for lab in sc["src"]}
+            keep_dest = {m.oid[lab] for lab in sc["dest"]}
+            self.push(sorted(closure))
+            for o in sorted(closure):
+                if o not in keep_dest:
+                    self.w.raw_rm(self.dname, dk, o)
+                if o not in keep_src:
+                    self.w.raw_rm("src", cfg["src_kind"], o)
+            ctx.probe("persisted_index_from_an_earlier_push")
         self.placed = []
         self.prefix = f"<rs>/rs/" if dk == "remote" else "dest/"
 
